@@ -9,6 +9,8 @@
 // trivially copyable): the helpers move such elements with std::memmove.  For this driver a memmove issued by the amc headers is a
 // LEDGER EVENT like a constructor or a destructor call (vf::relocMemmove below): the bytes are moved by the real memmove, then the
 // source slots that are not part of the destination range are overwritten with 0xEE (they hold no object any more: `R`).
+// The families of coq/Transfer.v (swap_deep, move_n, reloc*, erase_at*) are the WHOLE-CONTENT TRANSFERS: swap_deep, move_n,
+// RelocateToNewBuffer / amc::uninitialized_relocate_n run between TWO raw buffers (composite state <buffer 1>/<buffer 2>/<e>).
 // The line format, the real function behind every case and the model it is compared with: see SLOTDRV.md.
 //
 //   CASE <name> <param>=<int>... k=<k|-> | pre=<slots> | post=<slots> | threw=<0|1> | newsize=<n|-> | errs=<n> live=<n> [msg=<text>]
@@ -128,6 +130,7 @@ static_assert(amc::vec::is_shift_nothrow<TR>::value && std::is_nothrow_move_cons
 static const int kFirstValue = 10;  // the live prefix holds 10, 11, ...
 static const int kNewValue = 99;    // the value inserted / assigned when it does not come from the buffer itself
 static const int kRangeValue = 100;  // insert_range_tr: the source range holds 100, 101, ...
+static const int kSecondValue = 20;  // two-buffer families (coq/Transfer.v): the live prefix of the second buffer holds 20, 21, ...
 
 // raw buffer of exactly `cap` slots (ASan sees any access beyond it), filled with 0xEE: such a slot has no ledger identity
 template <class E>
@@ -181,6 +184,10 @@ static void killAll(BufOf<E> &b) {
 template <class E>
 static void setupPrefix(E *buf, int size) {
   for (int i = 0; i < size; ++i) ::new (static_cast<void *>(buf + i)) E(kFirstValue + i);
+}
+template <class E>
+static void setupPrefixFrom(E *buf, int size, int firstValue) {
+  for (int i = 0; i < size; ++i) ::new (static_cast<void *>(buf + i)) E(firstValue + i);
 }
 // the state shift_right(buf + pos, size - pos, count) leaves behind, built by hand (not by shift_right):
 // [0,pos) live | min(n,count) moved-from | raw up to pos+count | the n shifted elements | raw
@@ -504,6 +511,75 @@ static void runGrow(const char *name, int size, int pos, int src, int rv) {
   }
 }
 
+// ---- whole-content transfers between TWO raw buffers (coq/Transfer.v) ------------------------------------------------------------
+// Composite state <buffer 1 0..cap1-1>/<buffer 2 0..cap2-1>/<e>: buffer 1 starts with n1 elements 10, 11, ..., buffer 2 with n2 elements
+// 20, 21, ...; <e>: `R` when no live El exists outside the two buffers and the external object, `X<n>` otherwise (the temporary of
+// std::swap not destroyed, a copy leaked).  Every throw index: k = -, 0, 1, ... until the call completes.
+template <class E, class Body>
+static void runTwoOf(const char *name, const std::string &params, int n1, int cap1, int n2, int cap2, Body body) {
+  for (long k = -1;; ++k) {
+    bool threw = false;
+    {
+      vf::RelocScope relocLedger(std::is_same<E, TR>::value);
+      BufOf<E> b1(cap1), b2(cap2);
+      setupPrefixFrom(b1.data, n1, kFirstValue);
+      setupPrefixFrom(b2.data, n2, kSecondValue);
+      E v(kNewValue);  // not used: the same live object outside the buffers as in every other family
+      G().errors.clear();
+      const long errs0 = G().nErrors;
+      const std::string pre = slotStates(b1) + "/" + slotStates(b2) + "/" + eState(G().live - 1 - liveIn(b1.data, cap1) - liveIn(b2.data, cap2));
+      std::printf("CASE %s %s k=%s |", name, params.c_str(), k < 0 ? "-" : std::to_string(k).c_str());
+      std::fflush(stdout);
+      G().countdown = k;
+      try {
+        body(b1.data, b2.data);
+      } catch (const std::runtime_error &) {
+        threw = true;
+      }
+      G().countdown = -1;
+      const std::string post = slotStates(b1) + "/" + slotStates(b2) + "/" + eState(G().live - 1 - liveIn(b1.data, cap1) - liveIn(b2.data, cap2));
+      const long errs = G().nErrors - errs0;
+      std::printf(" pre=%s | post=%s | threw=%d | newsize=- | errs=%ld live=%ld", pre.c_str(), post.c_str(), threw ? 1 : 0, errs, G().live - 1);
+      if (errs != 0 && !G().errors.empty()) std::printf(" msg=%s", G().errors[0].c_str());
+      std::printf("\n");
+      killAll(b1);
+      killAll(b2);
+    }
+    if (k >= 0 && !threw) break;
+  }
+}
+static std::string P4(const char *a, int w, const char *b, int x, const char *c, int y, const char *d, int z) {
+  return P(a, w, b, x) + " " + P(c, y, d, z);
+}
+// vec::swap_deep (first1, n1, first2, n2): swap of two inline storages (StaticVectorBase / SmallVectorBase::swap_impl), swap2
+template <class E>
+static void runSwapDeep(const char *name, int n1, int cap1, int n2, int cap2) {
+  runTwoOf<E>(name, P4("n1", n1, "cap1", cap1, "n2", n2, "cap2", cap2), n1, cap1, n2, cap2, [=](E *b1, E *b2) {
+    amc::vec::swap_deep(b1, static_cast<SizeType>(n1), b2, static_cast<SizeType>(n2));
+  });
+}
+// vec::move_n (first, n, d_first, d_n): buffer 1 is the SOURCE (n elements), buffer 2 the destination (dn elements)
+template <class E>
+static void runMoveN(const char *name, int n, int cap1, int dn, int cap2) {
+  runTwoOf<E>(name, P4("n", n, "cap1", cap1, "dn", dn, "cap2", cap2), n, cap1, dn, cap2, [=](E *b1, E *b2) {
+    amc::vec::move_n(b1, static_cast<SizeType>(n), b2, static_cast<SizeType>(dn));
+  });
+}
+// the relocation of the n elements of buffer 1 into the raw buffer 2: vec::RelocateToNewBuffer (what vec::Reallocate,
+// SmallVectorBase::grow and resetToSmall call; selects the copy variant for El<2>), or amc::uninitialized_relocate_n itself
+template <class E>
+static void runReloc(const char *name, int n, int cap1, int cap2, bool direct) {
+  runTwoOf<E>(name, P("n", n) + " " + P("cap1", cap1, "cap2", cap2), n, cap1, 0, cap2, [=](E *b1, E *b2) {
+    if (direct) {
+      (void)amc::uninitialized_relocate_n(b1, static_cast<SizeType>(n), b2);
+    } else {
+      amc::vec::RelocateToNewBuffer(b1, static_cast<SizeType>(n), b2);
+    }
+  });
+}
+static_assert(!amc::vec::RelocateByCopy<T>::value && !amc::vec::RelocateByCopy<TR>::value && amc::vec::RelocateByCopy<TM>::value,
+              "RelocateToNewBuffer copies El<2> only");
+
 // usage: slotdrv [max size (default 4)] [max spare capacity = max count (default 3)]
 int main(int argc, char **argv) {
   const int maxSize = argc > 1 ? std::atoi(argv[1]) : 4;
@@ -668,6 +744,23 @@ int main(int argc, char **argv) {
         }
       }
 
+      // erase(position): vec::erase_at, the three element flavours (coq/Transfer.v)
+      for (int pos = 0; pos < size; ++pos) {
+        const std::string sp = sc + " " + P("pos", pos);
+        runCaseOf<T>("erase_at", sp, cap, true, -1, prefix, [=](T *buf, const T &) {
+          amc::vec::erase_at(buf + pos, static_cast<SizeType>(size - pos - 1));
+          return -1L;
+        });
+        runCaseOf<TR>("erase_at_tr", sp, cap, true, -1, prefixR, [=](TR *buf, const TR &) {
+          amc::vec::erase_at(buf + pos, static_cast<SizeType>(size - pos - 1));
+          return -1L;
+        });
+        runCaseOf<TM>("erase_at_mt", sp, cap, true, -1, [=](TM *buf) { setupPrefix(buf, size); }, [=](TM *buf, const TM &) {
+          amc::vec::erase_at(buf + pos, static_cast<SizeType>(size - pos - 1));
+          return -1L;
+        });
+      }
+
       // emplace / emplace_back of a full vector (growth path), once per size
       if (extra == 0) {
         for (int src = 0; src <= size; ++src) {
@@ -725,6 +818,32 @@ int main(int argc, char **argv) {
             return -1L;
           });
         }
+      }
+    }
+  }
+  // ---- whole-content transfers between two buffers (coq/Transfer.v) ------------------------------------------------------------------
+  const int slack = maxExtra >= 1 ? 1 : 0;  // every capacity tight and with one spare slot
+  for (int n1 = 0; n1 <= maxSize; ++n1) {
+    for (int n2 = 0; n2 <= maxSize; ++n2) {
+      for (int e1 = 0; e1 <= slack; ++e1) {
+        for (int e2 = 0; e2 <= slack; ++e2) {
+          // swap_deep: each range has room for the elements of the other one
+          runSwapDeep<T>("swap_deep", n1, std::max(n1, n2) + e1, n2, std::max(n1, n2) + e2);
+          runSwapDeep<TR>("swap_deep_tr", n1, std::max(n1, n2) + e1, n2, std::max(n1, n2) + e2);
+          // move_n: n1 = the source, n2 = the elements the destination holds before; the destination has room for the source
+          runMoveN<T>("move_n", n1, n1 + e1, n2, std::max(n1, n2) + e2);
+          runMoveN<TR>("move_n_tr", n1, n1 + e1, n2, std::max(n1, n2) + e2);
+        }
+      }
+    }
+  }
+  for (int n = 0; n <= maxSize; ++n) {
+    for (int e1 = 0; e1 <= slack; ++e1) {
+      for (int e2 = 0; e2 <= maxExtra; ++e2) {
+        runReloc<T>("reloc", n, n + e1, n + e2, false);
+        runReloc<TR>("reloc_tr", n, n + e1, n + e2, false);
+        runReloc<TM>("reloc_cp", n, n + e1, n + e2, false);  // RelocateByCopy: every copy is an event
+        runReloc<TM>("reloc_mt", n, n + e1, n + e2, true);   // amc::uninitialized_relocate_n: every move is an event
       }
     }
   }
